@@ -54,6 +54,13 @@ func runC13(c *fw.Ctx, idx int) fw.Result {
 		vp.PSub = 0.04
 		msa := gen.MakeVariantMSA(r, strings.ToUpper(ref), nq, vp)
 		refTxt := gen.RefFasta("reference", ref, gen.PickLineWidth(r, W))
+		if r.Chance(0.15) {
+			// snps takes the reference from its own file: a query that happens to carry the
+			// same ID is an ordinary query and counts like any other
+			k := r.Intn(len(msa.Rows))
+			msa.Rows[k].ID, msa.Rows[k].Desc = "reference", "reference"
+			res.Count("snps_cases_with_query_named_like_reference", 1)
+		}
 		aln := gen.RenderFasta(msa.Rows, gen.PickLineWidth(r, W))
 		hard := r.Chance(0.3)
 		var err error
